@@ -358,6 +358,15 @@ def _par_worker(item):
     sub = parent.sub()
     # violations' replay files must not collide between workers
     sub._viol_tag = 'w%d-%d' % (os.getpid(), abs(hash(str(item))) % 100000)
+    import signal
+
+    def _alarm(signum, frame):
+        raise Inconclusive('case %s exceeded the per-case time limit' % (str(item)[:80],))
+    try:
+        signal.signal(signal.SIGALRM, _alarm)
+        signal.alarm(int(os.environ.get('VERIF_CASE_TIMEOUT', 900 if parent.tier == 'quick' else 5400)))
+    except Exception:
+        pass
     try:
         fn(sub, item)
     except Unsupported as e:
@@ -367,6 +376,11 @@ def _par_worker(item):
     except Exception as e:
         sub.inconclusive.append('internal error in case %s: %r' % (str(item)[:80], e))
         traceback.print_exc()
+    finally:
+        try:
+            signal.alarm(0)
+        except Exception:
+            pass
     return sub.export()
 
 
